@@ -95,7 +95,7 @@ type PkgContracts struct {
 	Lemmas []*Lemma
 }
 
-var kwRe = regexp.MustCompile(`^(requires|ensures|invariant|decreases|modifies|assert|loop|result|inline|trusted|safety|param|func|ghost|pred|axiom|lemma|nopanic)\b`)
+var kwRe = regexp.MustCompile(`^(requires\b|ensures\b|invariant\b|decreases\b|modifies\b|assert\b|loop \d|result is\b|inline$|trusted$|safety\b|param [A-Za-z_]|func\b|ghost\b|pred\b|axiom\b|lemma\b|nopanic$)`)
 var tagRe = regexp.MustCompile(`^\[([^\]]*)\]`)
 
 func loadContracts(dir, pkgPath string) (*PkgContracts, error) {
@@ -153,6 +153,9 @@ func loadContracts(dir, pkgPath string) (*PkgContracts, error) {
 	var curLoop *LoopContract
 	for _, l := range merged {
 		kw := kwRe.FindString(l.text)
+		if f := strings.Fields(kw); len(f) > 0 {
+			kw = f[0]
+		}
 		rest := strings.TrimSpace(l.text[len(kw):])
 		var tags []string
 		if m := tagRe.FindStringSubmatch(rest); m != nil {
@@ -238,6 +241,22 @@ func loadContracts(dir, pkgPath string) (*PkgContracts, error) {
 			case "modifies":
 				c := &Clause{Kind: kw, Tags: tags, Src: rest, Line: l.line}
 				for _, part := range splitTop(rest) {
+					if part == "nothing" {
+						continue
+					}
+					if strings.HasPrefix(part, "each ") {
+						// each r :: P(r)  -- the set of objects r satisfying P
+						i := strings.Index(part, "::")
+						if i < 0 {
+							return nil, fail(fmt.Errorf("modifies each r :: P(r)"))
+						}
+						body, err := parseSpecExpr(part[i+2:])
+						if err != nil {
+							return nil, fail(err)
+						}
+						c.Es = append(c.Es, &EachE{Var: strings.TrimSpace(part[5:i]), Body: body})
+						continue
+					}
 					e, err := parseSpecExpr(part)
 					if err != nil {
 						return nil, fail(err)
